@@ -32,7 +32,7 @@ def plan(tier, seed):
     for dl, el, dr, er in [(7, -3, 7, -2), (15, -8, 8, 0), (31, -16, 31, -16), (40, -20, 10, 2), (63, -31, 63, -31), (20, 5, 30, -30)]:
         regs.append('c02::Quot<cnl::elastic_scaled_integer<%d, cnl::power<%d>>, cnl::elastic_scaled_integer<%d, cnl::power<%d>>>::reg("elastic%d:%d|elastic%d:%d")'
                     % (dl, el, dr, er, dl, el, dr, er))
-    cases = 8000 if quick else 100000
+    cases = 30000 if quick else 200000
     units = [Unit('C02-gxx-%d' % i, 'gxx', 'props/C02.h', part, rc_cases=cases, enum_max=2 ** 17, chunk=10)
              for i, part in enumerate(split(regs, 15))]
     cl = [r for r in regs if 'Quot<' in r][:20] + [r for r in regs if 'int:' in r][:12]
